@@ -96,19 +96,27 @@ class DBusClientConnection (txdbus.protocol.BasicDBusProtocol):
         """
         Called when the transport loses connection to the bus
         """
-        if self.busName is None:
+        if not self._authenticated:
+            # lost during authentication: connect()'s Deferred must fail
+            self.factory._failed(reason)
             return
 
-        for cb in self._dcCallbacks:
-            cb(self, reason)
+        established = self.busName is not None
 
+        if established:
+            for cb in self._dcCallbacks:
+                cb(self, reason)
+
+        # Also before the Hello reply arrived: failing the pending Hello call
+        # is what fails connect()'s Deferred in that case.
         for d, timeout in self._pendingCalls.values():
             if timeout:
                 timeout.cancel()
             d.errback(reason)
         self._pendingCalls = {}
 
-        self.objHandler.connectionLost(reason)
+        if established:
+            self.objHandler.connectionLost(reason)
 
     def notifyOnDisconnect(self, callback):
         """
@@ -650,10 +658,12 @@ class DBusClientFactory (Factory):
         self.d = defer.Deferred()
 
     def _ok(self, proto):
-        self.d.callback(proto)
+        if not self.d.called:
+            self.d.callback(proto)
 
     def _failed(self, err):
-        self.d.errback(err)
+        if not self.d.called:
+            self.d.errback(err)
 
     def getConnection(self):
         """
